@@ -6,12 +6,66 @@
 //! the real nodes, and the property oracles evaluated on the implementation's own answers.
 #![allow(dead_code)]
 
+pub mod corpus;
+
 use camharness::*;
 use cameleon_genapi::builder::GenApiBuilder;
 use cameleon_genapi::prelude::*;
 use cameleon_genapi::store::{CacheSink, DefaultCacheStore, DefaultNodeStore, DefaultValueStore};
 use cameleon_genapi::{Device, GenApiError, GenApiResult, NodeId, NodeStore, ValueCtxt};
 use std::collections::HashMap;
+
+
+// ───────────────────────────── panic discipline ─────────────────────────────
+//
+// Calls into the implementation may panic (that is an answer: `Ans::Panic`), and they run under
+// `catch`.  A panic anywhere else is a bug of this harness: the hook prints file:line for it
+// (the shared `camharness::catch` installs a silent hook, which would hide it), and the oracle
+// code additionally runs under `guarded`, which turns such a panic into a distinctly reported
+// harness bug instead of a crash without a result file.
+
+thread_local! {
+    static CATCH_DEPTH: std::cell::Cell<u32> = const { std::cell::Cell::new(0) };
+    static LAST_PANIC: std::cell::RefCell<Option<String>> = const { std::cell::RefCell::new(None) };
+}
+
+pub fn install_panic_hook() {
+    // let the shared helper install its silent hook first (it does so once), then replace it
+    let _ = camharness::catch(|| ());
+    std::panic::set_hook(Box::new(|info| {
+        let loc = info.location().map_or("?".to_string(), |l| format!("{}:{}", l.file(), l.line()));
+        let msg = if let Some(s) = info.payload().downcast_ref::<&str>() {
+            s.to_string()
+        } else if let Some(s) = info.payload().downcast_ref::<String>() {
+            s.clone()
+        } else {
+            "<non-string panic payload>".to_string()
+        };
+        LAST_PANIC.with(|l| *l.borrow_mut() = Some(format!("{loc}: {msg}")));
+        if CATCH_DEPTH.with(|d| d.get()) == 0 {
+            eprintln!("HARNESS PANIC outside catch at {loc}: {msg}");
+        }
+    }));
+}
+
+/// run `f`; a panic becomes `Err(())` (shadows `camharness::catch`: same contract, but tells the
+/// hook that the panic is expected)
+pub fn catch<T>(f: impl FnOnce() -> T) -> Result<T, ()> {
+    CATCH_DEPTH.with(|d| d.set(d.get() + 1));
+    let r = std::panic::catch_unwind(std::panic::AssertUnwindSafe(f));
+    CATCH_DEPTH.with(|d| d.set(d.get() - 1));
+    r.map_err(|_| ())
+}
+
+/// run harness-side code (oracles, predicate evaluation); a panic in it is a HARNESS BUG and is
+/// returned as `Err(file:line: message)`
+pub fn guarded<T>(f: impl FnOnce() -> T) -> Result<T, String> {
+    LAST_PANIC.with(|l| *l.borrow_mut() = None);
+    match catch(f) {
+        Ok(x) => Ok(x),
+        Err(()) => Err(LAST_PANIC.with(|l| l.borrow_mut().take()).unwrap_or_else(|| "?".into())),
+    }
+}
 
 // ───────────────────────────── abstract description ─────────────────────────────
 
@@ -711,6 +765,22 @@ pub fn log_digest(log: &[Acc]) -> u64 {
     log_digest_from(FNV_INIT, log)
 }
 
+/// What of a call's device accesses is compared with the model: the WRITES in the order they were
+/// issued (fan-out order and the partial effect of a failing write are clauses of C03), then - if
+/// `keep_reads` - the READS as a sorted multiset (no clause fixes the order in which independent
+/// sources - address elements, length, formula variables - are evaluated).  Reads are dropped for a
+/// failing call (which sources were consulted before the failing one is not fixed either) and for
+/// access queries (which controlling nodes a query consults before it can answer is not fixed by C18).
+pub fn canon_accesses(keep_reads: bool, seg: &[Acc]) -> Vec<Acc> {
+    let mut out: Vec<Acc> = seg.iter().filter(|a| matches!(a, Acc::W(..))).cloned().collect();
+    if keep_reads {
+        let mut reads: Vec<(i64, usize, bool)> = seg.iter().filter_map(|a| if let Acc::R(a, l, ok) = a { Some((*a, *l, *ok)) } else { None }).collect();
+        reads.sort();
+        out.extend(reads.into_iter().map(|(a, l, ok)| Acc::R(a, l, ok)));
+    }
+    out
+}
+
 /// running digest: continue `h` over further entries
 pub fn log_digest_from(mut h: u64, log: &[Acc]) -> u64 {
     for a in log {
@@ -824,6 +894,22 @@ impl Op {
             | Op::CmdExecute(n) | Op::CmdIsDone(n) | Op::RegRead(n, _) | Op::RegWrite(n, _) | Op::RegAddress(n)
             | Op::RegLength(n) | Op::IsReadable(n) | Op::IsWritable(n) | Op::IsImplemented(n) | Op::IsAvailable(n)
             | Op::IsLocked(n) => *n,
+        }
+    }
+    /// does a node of kind `k` offer the interface this call belongs to?  (otherwise the call answers
+    /// `InvalidNode` by construction and exercises nothing)
+    pub fn offered_by(&self, k: &Kind) -> bool {
+        match self {
+            Op::IntValue(_) | Op::IntSet(..) | Op::IntMin(_) | Op::IntMax(_) | Op::IntInc(_) | Op::IntSetMin(..) | Op::IntSetMax(..) => k.is_int(),
+            Op::FloatValue(_) | Op::FloatSet(..) | Op::FloatMin(_) | Op::FloatMax(_) | Op::FloatInc(_) | Op::FloatSetMin(..) | Op::FloatSetMax(..) => k.is_float(),
+            Op::StrValue(_) | Op::StrSet(..) | Op::StrMaxLength(_) => k.is_str(),
+            Op::BoolValue(_) | Op::BoolSet(..) => k.is_bool(),
+            Op::EnumCurrentValue(_) | Op::EnumCurrentEntry(_) | Op::EnumSetByValue(..) | Op::EnumSetByName(..) | Op::EnumEntries(_) => k.is_enum(),
+            Op::CmdExecute(_) | Op::CmdIsDone(_) => matches!(k, Kind::Command { .. }),
+            Op::RegRead(..) | Op::RegWrite(..) | Op::RegAddress(_) | Op::RegLength(_) => k.reg().is_some(),
+            Op::IsReadable(_) => k.is_int() || k.is_float() || k.is_str() || k.is_bool() || k.is_enum(),
+            Op::IsWritable(_) => k.is_int() || k.is_float() || k.is_str() || k.is_bool() || k.is_enum() || matches!(k, Kind::Command { .. }),
+            Op::IsImplemented(_) | Op::IsAvailable(_) | Op::IsLocked(_) => matches!(k, Kind::EnumEntry { .. }),
         }
     }
     pub fn is_write(&self) -> bool {
@@ -1202,50 +1288,114 @@ impl<'a> Access<'a> {
     fn vars(&self, im: &mut Impl, fm: &Fm, d: usize) -> bool {
         fm.vars.iter().all(|(_, v)| self.formula_ref(*v) && self.acc(im, *v, false, d))
     }
-    /// Is there, in what the access query of `n` may look at, an ingredient without a truth value /
-    /// value / of the wrong kind?  An `Err` answer of `is_readable` / `is_writable` is legitimate only
-    /// then (the expected error classes: `InvalidNode` for a controlling node that is neither boolean
-    /// nor integer kind or does not exist, a String pValue that is not a string node, a pIndex
-    /// selector that is not integer kind, a formula variable / converter pValue that is not integer,
-    /// float, boolean or enumeration kind; otherwise the error class with which evaluating the
-    /// controlling node / selector itself fails, e.g. `Device`, `InvalidBuffer`, `InvalidData`).
-    pub fn trouble(&self, im: &mut Impl, n: usize, d: usize) -> bool {
+    /// The error classes an access query of `n` may legitimately answer with: for everything the query
+    /// may look at (controlling nodes, pIndex selector and branches, value sources / targets, formula
+    /// variables, converter pValue - recursively) the class with which that ingredient fails:
+    /// `InvalidNode` for a controlling node that is neither boolean nor integer kind or does not exist,
+    /// a String pValue that is not a string node, a pIndex selector that is not integer kind, a formula
+    /// variable / converter pValue that is not integer, float, boolean or enumeration kind; otherwise
+    /// the class with which evaluating the controlling node / selector itself fails (e.g. `Device`,
+    /// `InvalidBuffer`, `InvalidData`, `ChunkDataMissing`; `panic` when that evaluation panics, e.g. a
+    /// controller register with a negative `<Length>`).  `*` = anything (reference depth exhausted).
+    /// An error answer outside this set has no cause in the description.
+    pub fn error_classes(&self, im: &mut Impl, n: usize, d: usize, out: &mut std::collections::BTreeSet<&'static str>) {
         if d == 0 {
-            return true;
+            out.insert("*");
+            return;
         }
         let d = d - 1;
         let k = match self.g.kind(n) {
             Some(k) => k,
-            None => return true,
+            None => {
+                out.insert("InvalidNode");
+                return;
+            }
         };
         let b = k.base();
         for c in [b.imp, b.avail, b.locked].into_iter().flatten() {
-            if self.ctl(im, c).is_none() {
-                return true;
+            let a = if self.g.is_bool(c) {
+                im.probe(&Op::BoolValue(c))
+            } else if self.g.is_int(c) {
+                im.probe(&Op::IntValue(c))
+            } else {
+                Ans::Err("InvalidNode")
+            };
+            match a {
+                Ans::Err(e) => {
+                    out.insert(e);
+                }
+                Ans::Panic => {
+                    out.insert("panic");
+                }
+                _ => {}
             }
         }
-        let son = |s: &Self, im: &mut Impl, v: &Son| match v {
-            Son::Slot(_) => false,
-            Son::Node(p) => s.trouble(im, *p, d),
+        let mut son = |s: &Self, im: &mut Impl, v: &Son, out: &mut std::collections::BTreeSet<&'static str>| {
+            if let Son::Node(p) = v {
+                if !s.numeric_ref(*p) {
+                    out.insert("InvalidNode");
+                }
+                s.error_classes(im, *p, d, out)
+            }
         };
         match k {
             Kind::Integer { vk, .. } | Kind::Float { vk, .. } => match vk {
-                VK::Value(_) => false,
-                VK::PValue { p, .. } => self.trouble(im, *p, d) || vk.copies().iter().any(|c| self.trouble(im, *c, d)),
+                VK::Value(_) => {}
+                VK::PValue { p, .. } => {
+                    for t in std::iter::once(p).chain(vk.copies().iter()) {
+                        if !self.numeric_ref(*t) {
+                            out.insert("InvalidNode");
+                        }
+                        self.error_classes(im, *t, d, out);
+                    }
+                }
                 VK::PIndex { sel, entries, dflt } => {
-                    !self.g.is_int(*sel) || self.sel_value(im, *sel).is_none() || self.trouble(im, *sel, d) || entries.iter().any(|e| son(self, im, &e.1)) || son(self, im, dflt)
+                    if !self.g.is_int(*sel) {
+                        out.insert("InvalidNode");
+                    } else {
+                        match im.probe(&Op::IntValue(*sel)) {
+                            Ans::Err(e) => {
+                                out.insert(e);
+                            }
+                            Ans::Panic => {
+                                out.insert("panic");
+                            }
+                            _ => {}
+                        }
+                    }
+                    self.error_classes(im, *sel, d, out);
+                    for e in entries {
+                        son(self, im, &e.1, out);
+                    }
+                    son(self, im, dflt, out);
                 }
             },
-            Kind::Boolean { value, .. } | Kind::Enumeration { value, .. } | Kind::Command { value, .. } => son(self, im, value),
-            Kind::Str { value, .. } => match value {
-                Son::Slot(_) => false,
-                Son::Node(p) => !self.g.is_str(*p) || self.trouble(im, *p, d),
-            },
-            Kind::Converter { fm, pvalue, .. } => {
-                !self.formula_ref(*pvalue) || self.trouble(im, *pvalue, d) || fm.vars.iter().any(|(_, v)| !self.formula_ref(*v) || self.trouble(im, *v, d))
+            Kind::Boolean { value, .. } | Kind::Enumeration { value, .. } | Kind::Command { value, .. } => son(self, im, value, out),
+            Kind::Str { value, .. } => {
+                if let Son::Node(p) = value {
+                    if !self.g.is_str(*p) {
+                        out.insert("InvalidNode");
+                    }
+                    self.error_classes(im, *p, d, out);
+                }
             }
-            Kind::SwissKnife { fm, .. } => fm.vars.iter().any(|(_, v)| !self.formula_ref(*v) || self.trouble(im, *v, d)),
-            _ => false,
+            Kind::Converter { fm, pvalue, .. } => {
+                for v in std::iter::once(pvalue).chain(fm.vars.iter().map(|(_, v)| v)) {
+                    if !self.formula_ref(*v) {
+                        out.insert("InvalidNode");
+                    }
+                    self.error_classes(im, *v, d, out);
+                }
+            }
+            Kind::SwissKnife { fm, .. } => {
+                for (_, v) in &fm.vars {
+                    if !self.formula_ref(*v) {
+                        out.insert("InvalidNode");
+                    }
+                    self.error_classes(im, *v, d, out);
+                }
+            }
+            _ => {}
         }
     }
 
@@ -1368,6 +1518,22 @@ impl<'a> B<'a> {
         if self.rng.chance(1, 30) {
             return Some(self.wrong_ref());
         }
+        // the form real device descriptions use: a mask expression over a register / integer
+        // (`<pIsLocked>` -> IntSwissKnife `REG & 0x4`, or an IntConverter over it); weight 1/3
+        if self.rng.chance(1, 3) {
+            let src = self.pool(|k| matches!(k, Kind::Integer { .. } | Kind::IntReg { .. } | Kind::MaskedIntReg { .. }));
+            if let Some(src) = self.pick(&src) {
+                let f = self.rng.pick(&["(X & 4)", "(X & 1)", "((X & 2) = 2)", "(X > 1)", "((X >> 1) & 1)", "(X = 2 ? 1 : 0)", "(X & 0x6)", "(X % 3)"]).to_string();
+                if self.rng.chance(2, 3) {
+                    let fm = Fm { vars: vec![("X".to_string(), src)], consts: vec![], exprs: vec![] };
+                    self.nodes.push(Kind::SwissKnife { b: Base::default(), fm, formula: f, int: true, embedded: false });
+                } else {
+                    // IntConverter: FormulaFrom over TO (= the value of pValue)
+                    self.nodes.push(Kind::Converter { b: Base::default(), fm: Fm::default(), to: "FROM".to_string(), from: f.replace('X', "TO"), pvalue: src, int: true });
+                }
+                return Some(self.nodes.len() - 1);
+            }
+        }
         let p = self.pool(|k| k.is_bool() || matches!(k, Kind::Integer { .. } | Kind::IntReg { .. } | Kind::MaskedIntReg { .. }));
         self.pick(&p)
     }
@@ -1463,7 +1629,9 @@ impl<'a> B<'a> {
             let n = self.rng.below(4);
             let mut entries = vec![];
             for _ in 0..n {
-                let idx = self.rng.below(4) as i64;
+                // mostly 0..3; sometimes the same residue shifted by 2^8 / 2^16 / 2^32 (an index that a
+                // comparison in a narrower integer type would confuse with the small one)
+                let idx = self.rng.below(4) as i64 + *self.rng.pick(&[0i64, 0, 0, 0, 0, 0, 0, 1 << 32, -(1 << 32), 1 << 16, 1 << 8, 1 << 32]);
                 let v = if float { self.son_float() } else { self.son_int() };
                 entries.push((idx, v));
             }
@@ -1472,6 +1640,14 @@ impl<'a> B<'a> {
         }
         let v = self.small();
         VK::Value(self.slot(if float { SlotInit::F(v as f64) } else { SlotInit::I(v) }))
+    }
+
+    fn static_addr_of(&self, n: usize) -> Option<i64> {
+        let r = self.nodes.get(n)?.reg()?;
+        match r.addrs.as_slice() {
+            [AddrKind::Addr(Ion::Imm(a))] if (0..MEM_LEN as i64).contains(a) => Some(*a),
+            _ => None,
+        }
     }
 
     fn isk_embedded(&mut self) -> usize {
@@ -1490,7 +1666,16 @@ impl<'a> B<'a> {
         for i in 0..n {
             let c = self.rng.below(10);
             if i == 0 && c < 7 {
-                let a = if self.rng.chance(1, 25) { self.rng.interesting_i64() } else { self.rng.below(120) as i64 };
+                // sometimes the address of an existing register: aliased registers see each other's writes
+                // (fan-out targets, controllers read through one register and written through another)
+                let existing: Vec<i64> = (0..self.nodes.len()).filter_map(|n| self.static_addr_of(n)).collect();
+                let a = if self.rng.chance(1, 25) {
+                    self.rng.interesting_i64()
+                } else if !existing.is_empty() && self.rng.chance(1, 4) {
+                    *self.rng.pick(&existing)
+                } else {
+                    self.rng.below(120) as i64
+                };
                 addrs.push(AddrKind::Addr(Ion::Imm(a)));
             } else if c < 3 {
                 addrs.push(AddrKind::Addr(Ion::Imm(self.rng.below(24) as i64)));
@@ -1551,7 +1736,10 @@ impl<'a> B<'a> {
         let mut idents: Vec<String> = vec![];
         let nv = self.rng.below(5);
         for i in 0..nv {
-            if let Some(v) = self.formula_ref() {
+            // sometimes the node of an earlier variable again (several accessors of one node: `G`, `G.Min`,
+            // `G.Max`; several `.Enum.<entry>` of ONE enumeration, then with different entries)
+            let again = if !fm.vars.is_empty() && self.rng.chance(1, 3) { Some(fm.vars[self.rng.below(fm.vars.len() as u64) as usize].1) } else { None };
+            if let Some(v) = again.or_else(|| self.formula_ref()) {
                 // names: mostly fresh, sometimes a duplicate of an earlier variable (the later binding
                 // shadows), sometimes TO / FROM (shadowing what the converter inserts first)
                 let base = match self.rng.below(10) {
@@ -1573,13 +1761,28 @@ impl<'a> B<'a> {
                 let suffix: String = match self.rng.below(10) {
                     0 | 1 if k.map_or(false, |k| k.is_int() || k.is_float()) => self.rng.pick(&[".Min", ".Max", ".Inc"]).to_string(),
                     2 => ".Value".into(),
-                    0..=5 if !entry_syms.is_empty() => format!(".Enum.{}", self.rng.pick(&entry_syms)),
+                    0..=5 if !entry_syms.is_empty() => {
+                        // prefer an entry that no earlier `.Enum` variable of this enumeration names
+                        let fresh: Vec<String> = entry_syms.iter().filter(|s| !fm.vars.iter().any(|(n, w)| *w == v && n.ends_with(&format!(".Enum.{s}")))).cloned().collect();
+                        format!(".Enum.{}", self.rng.pick(if fresh.is_empty() { &entry_syms } else { &fresh }))
+                    }
+                    _ if again.is_some() && !entry_syms.is_empty() && self.rng.chance(1, 2) => format!(".Enum.{}", self.rng.pick(&entry_syms)),
                     6 if self.rng.chance(1, 5) => self.rng.pick(&[".Foo", ".Min.X", ".Enum.Nope", ".Max"]).to_string(),
                     _ => String::new(),
                 };
                 let n = format!("{base}{suffix}");
                 idents.push(n.clone());
                 fm.vars.push((n, v));
+                // a second `.Enum.<other entry>` variable of the SAME enumeration (each must get its own
+                // entry's value)
+                if suffix.starts_with(".Enum.") && entry_syms.len() >= 2 && self.rng.chance(1, 2) {
+                    let other: Vec<String> = entry_syms.iter().filter(|s| !suffix.ends_with(&format!(".{s}"))).cloned().collect();
+                    if !other.is_empty() {
+                        let n2 = format!("{}.Enum.{}", ["P", "Q", "R"][i as usize % 3], self.rng.pick(&other));
+                        idents.push(n2.clone());
+                        fm.vars.push((n2, v));
+                    }
+                }
             }
         }
         let plain = |idents: &Vec<String>| -> Vec<String> { idents.iter().filter(|n| !n.contains('.')).cloned().collect() };
@@ -1603,16 +1806,18 @@ impl<'a> B<'a> {
         for i in 0..ne {
             let pl = plain(&idents);
             // an expression that re-uses an earlier identifier (variable, constant, expression, TO / FROM)
-            // shadows it; its body is literal-only, because a body mentioning its own name makes the
-            // implementation recurse until the stack overflows (C05, outside the statement)
+            // shadows it; its body is mostly literal-only, sometimes over the identifiers so far - its own
+            // name included: an expression that (directly or through others) refers to itself is an
+            // error (/repo f938a4f; before that fix the implementation recursed until the stack overflowed)
             if !pl.is_empty() && self.rng.chance(1, 3) {
                 let n = if self.rng.chance(1, 4) { self.rng.pick(&["TO", "FROM"]).to_string() } else { self.rng.pick(&pl).clone() };
-                let e = gen_expr(self.rng, &[], 1, int); // no identifiers available: literals (and the unbound `Z`)
+                let e = if self.rng.chance(1, 3) { gen_expr(self.rng, &idents, 1, int) } else { gen_expr(self.rng, &[], 1, int) };
                 idents.push(n.clone());
                 fm.exprs.push((n, e));
             } else {
                 let n = format!("X{i}");
-                let usable: Vec<String> = idents.iter().filter(|x| **x != n).cloned().collect();
+                let selfref = self.rng.chance(1, 12);
+                let usable: Vec<String> = idents.iter().filter(|x| **x != n).cloned().chain(if selfref { Some(n.clone()) } else { None }).collect();
                 let e = gen_expr(self.rng, &usable, 2, int);
                 idents.push(n.clone());
                 fm.exprs.push((n, e));
@@ -2152,7 +2357,7 @@ pub fn sweep(g: &Graph) -> Vec<Op> {
 /// to what its accessor names, read from the referenced node through the public interface —
 /// then the constants, then the expressions; a later binding of a name replaces an earlier
 /// one.  `None` when a referenced value cannot be obtained (then the node has no value either).
-fn oracle_formula_env(g: &Graph, im: &mut Impl, fm: &Fm, int: bool, first: Option<(&str, usize)>) -> Option<HashMap<String, cameleon_genapi::formula::Expr>> {
+fn oracle_formula_env(g: &Graph, im: &mut Impl, fm: &Fm, int: bool, first: Option<(&str, usize)>, first_imm: Option<(&str, cameleon_genapi::formula::Expr)>) -> Option<HashMap<String, cameleon_genapi::formula::Expr>> {
     use cameleon_genapi::formula::{parse, Expr};
     fn plain(g: &Graph, im: &mut Impl, v: usize) -> Option<Expr> {
         if g.is_int(v) {
@@ -2186,6 +2391,9 @@ fn oracle_formula_env(g: &Graph, im: &mut Impl, fm: &Fm, int: bool, first: Optio
     let mut env: HashMap<String, Expr> = HashMap::new();
     if let Some((name, v)) = first {
         env.insert(name.to_string(), plain(g, im, v)?);
+    }
+    if let Some((name, e)) = first_imm {
+        env.insert(name.to_string(), e);
     }
     for (name, v) in &fm.vars {
         let parts: Vec<&str> = name.splitn(3, '.').collect();
@@ -2236,6 +2444,26 @@ fn oracle_formula_env(g: &Graph, im: &mut Impl, fm: &Fm, int: bool, first: Optio
     Some(env)
 }
 
+/// result of FormulaTo in the three conversions `set_eval_result` may apply
+#[derive(Clone, Copy, Debug)]
+pub struct EvalOut {
+    pub as_int: i64,
+    pub as_float: f64,
+    /// GenApi: a boolean target receives `true` exactly when the result is non-zero (a non-zero
+    /// fraction such as 0.5 included)
+    pub non_zero: bool,
+}
+
+fn oracle_formula_eval_raw(formula: &str, env: &HashMap<String, cameleon_genapi::formula::Expr>) -> Option<EvalOut> {
+    use cameleon_genapi::formula::{parse, EvaluationResult};
+    let r = std::panic::catch_unwind(std::panic::AssertUnwindSafe(|| parse(formula).eval(env))).ok()?.ok()?;
+    let non_zero = match r {
+        EvaluationResult::Integer(i) => i != 0,
+        EvaluationResult::Float(f) => f != 0.0,
+    };
+    Some(EvalOut { as_int: r.as_integer(), as_float: r.as_float(), non_zero })
+}
+
 /// evaluates `formula` in `env` with the implementation's own evaluator (the evaluator is C05's
 /// subject; what is checked here is which environment the node hands to it)
 fn oracle_formula_eval(formula: &str, env: &HashMap<String, cameleon_genapi::formula::Expr>, int: bool) -> Option<Ans> {
@@ -2244,11 +2472,167 @@ fn oracle_formula_eval(formula: &str, env: &HashMap<String, cameleon_genapi::for
     Some(if int { Ans::Int(r.as_integer()) } else { Ans::Float(r.as_float()) })
 }
 
+
+/// DOUBT (C03/B3, open): what a `<pIndex>` WITHOUT `Offset` / `pOffset` contributes to a register
+/// address.  The code (elem_type.rs) adds index x 1, and model, reference semantics and this oracle
+/// transcribe that.  An independent recollection says GenApi uses the register's Length as the default
+/// offset (register arrays).  The standard text is not available offline.  Flip here (and
+/// `pIndexDefaultOffset` in Spec/GenApiSem.lean) to certify the other reading; every run counts the
+/// register evaluations on which the two readings differ (`pindex-default-offset:*`).
+#[derive(Clone, Copy, PartialEq)]
+pub enum PIndexDefaultOffset {
+    One,
+    RegisterLength,
+}
+pub const PINDEX_DEFAULT_OFFSET: PIndexDefaultOffset = PIndexDefaultOffset::One;
+
+pub struct OracleAddr {
+    /// the address by the sum rule (None: an element has no value, or i64 is left somewhere - then
+    /// the code overflows and the rule is not checked)
+    pub addr: Option<i64>,
+    /// an address element has no value
+    pub unknown: bool,
+    /// the same sum with the OTHER reading of the default pIndex offset (None as above)
+    pub addr_other_default: Option<i64>,
+    /// there is a pIndex element without Offset / pOffset
+    pub has_default_offset: bool,
+}
+
+/// register length from Length / pLength (through the public value interface of the referenced node)
+pub fn oracle_length(g: &Graph, im: &mut Impl, r: &RegBase) -> Option<i64> {
+    match &r.length {
+        Ion::Imm(i) => Some(*i),
+        Ion::Node(p) => im.probe_num_as_int(g, *p),
+    }
+}
+
+/// register address = sum of the address elements: Address, pAddress, embedded IntSwissKnife,
+/// pIndex x Offset / pOffset (default: see `PINDEX_DEFAULT_OFFSET`)
+pub fn oracle_address(g: &Graph, im: &mut Impl, r: &RegBase) -> OracleAddr {
+    let len = oracle_length(g, im, r);
+    let mut res = OracleAddr { addr: None, unknown: false, addr_other_default: None, has_default_offset: false };
+    let mut sums: [Option<i64>; 2] = [Some(0), Some(0)]; // [chosen default, other default]
+    for a in &r.addrs {
+        // value of the element under both readings
+        let v: Option<[i128; 2]> = match a {
+            AddrKind::Addr(Ion::Imm(i)) => Some([*i as i128; 2]),
+            AddrKind::Addr(Ion::Node(p)) => im.probe_num_as_int(g, *p).map(|x| [x as i128; 2]),
+            AddrKind::Isk(s) => im.probe_num_as_int(g, *s).map(|x| [x as i128; 2]),
+            AddrKind::PIndex { sel, offset } => {
+                let b = im.probe_num_as_int(g, *sel).map(|x| x as i128);
+                let o: Option<[i128; 2]> = match offset {
+                    None => {
+                        res.has_default_offset = true;
+                        let one = Some(1i128);
+                        let l = len.map(|l| l as i128);
+                        match PINDEX_DEFAULT_OFFSET {
+                            PIndexDefaultOffset::One => one.map(|o| [o, l.unwrap_or(o)]),
+                            PIndexDefaultOffset::RegisterLength => l.map(|l| [l, 1]),
+                        }
+                    }
+                    Some(Ion::Imm(i)) => Some([*i as i128; 2]),
+                    Some(Ion::Node(p)) => im.probe_num_as_int(g, *p).map(|x| [x as i128; 2]),
+                };
+                // both factors are i64 values, so the products fit i128
+                match (b, o) {
+                    (Some(b), Some(o)) => Some([b * o[0], b * o[1]]),
+                    _ => None,
+                }
+            }
+        };
+        match v {
+            None => {
+                res.unknown = true;
+                sums = [None, None];
+            }
+            Some(v) => {
+                for i in 0..2 {
+                    // leaving i64 anywhere (product or running sum): the code overflows, rule not checked
+                    sums[i] = sums[i].and_then(|s| i64::try_from(v[i]).ok().and_then(|x| s.checked_add(x)));
+                }
+            }
+        }
+    }
+    if !res.unknown {
+        res.addr = sums[0];
+        res.addr_other_default = sums[1];
+    }
+    res
+}
+
+/// what an integer written to a faithful store reads back as: itself, except that an IntReg keeps
+/// only its length's worth of low-order bytes (the codec truncates, C01) and re-interprets the sign
+fn readback_int(g: &Graph, n: usize, v: i64) -> Option<i64> {
+    match g.kind(n) {
+        Some(Kind::IntReg { signed, be, .. }) => {
+            let l = usize::try_from(g.static_len(n)?).ok()?;
+            decode_int(&encode_int(v, l, *be)?, *be, *signed)
+        }
+        _ => Some(v),
+    }
+}
+
+fn decode_int(bytes: &[u8], be: bool, signed: bool) -> Option<i64> {
+    if bytes.is_empty() || bytes.len() > 8 {
+        return None;
+    }
+    let mut v: u64 = 0;
+    let it: Box<dyn Iterator<Item = &u8>> = if be { Box::new(bytes.iter()) } else { Box::new(bytes.iter().rev()) };
+    for b in it {
+        v = (v << 8) | *b as u64;
+    }
+    let bits = 8 * bytes.len() as u32;
+    Some(if signed && bits < 64 && (v >> (bits - 1)) & 1 == 1 { (v | (!0u64 << bits)) as i64 } else { v as i64 })
+}
+
+fn encode_int(v: i64, len: usize, be: bool) -> Option<Vec<u8>> {
+    if len == 0 || len > 8 {
+        return None;
+    }
+    let le = v.to_le_bytes();
+    let mut out: Vec<u8> = le[..len].to_vec();
+    if be {
+        out.reverse();
+    }
+    Some(out)
+}
+
+/// a node whose value, once written successfully, reads back as written (used by the oracles that
+/// check WHERE a value went by reading the target back): value-store backed Integer / Float, IntReg /
+/// FloatReg with immediate address and length, Boolean with distinct On / Off over such a target,
+/// Enumeration over a value-store slot
+fn faithful_store(g: &Graph, n: usize, d: usize) -> bool {
+    if d == 0 {
+        return false;
+    }
+    // (registers are excluded below a Boolean: an On / Off value that does not fit the register is
+    // truncated by the codec, C01, and then reads back as neither)
+    let son = |v: &Son| match v {
+        Son::Slot(_) => true,
+        Son::Node(p) => matches!(g.kind(*p), Some(Kind::Integer { vk: VK::Value(_), .. })),
+    };
+    let _ = d;
+    match g.kind(n) {
+        Some(Kind::Integer { vk: VK::Value(_), .. }) | Some(Kind::Float { vk: VK::Value(_), .. }) => true,
+        Some(Kind::IntReg { .. }) => g.static_addr(n).is_some() && g.static_len(n).is_some(),
+        Some(Kind::FloatReg { .. }) => g.static_addr(n).is_some() && g.static_len(n) == Some(8),
+        Some(Kind::Boolean { value, on, off, .. }) => on != off && son(value),
+        Some(Kind::Enumeration { value: Son::Slot(_), .. }) => true,
+        _ => false,
+    }
+}
+
 /// Independent checks of the dataflow rules on the implementation's answers.  Everything is
 /// computed from the abstract description and from the *values of the referenced nodes*
 /// (obtained through the public value interface with recording off), never from the node
 /// under test itself.  Returns (oracle name, description) on a violation.
 pub fn c03_oracles(g: &Graph, im: &mut Impl, op: &Op, ans: &Ans, log_before: usize, pre: &PreState, rep: &mut Report) -> Option<(String, String)> {
+    // self-test of the panic discipline: CAMHARNESS_TEST_ORACLE_PANIC=1 makes this oracle panic on every
+    // `address` call; the run must still finish, report HARNESS-BUG:oracle-panicked@<file:line> and no verdict
+    static SELF_TEST: std::sync::OnceLock<bool> = std::sync::OnceLock::new();
+    if *SELF_TEST.get_or_init(|| std::env::var_os("CAMHARNESS_TEST_ORACLE_PANIC").is_some()) && matches!(op, Op::RegAddress(_)) {
+        panic!("self-test: oracle panic");
+    }
     let seg: Vec<Acc> = im.dev.log[log_before..].to_vec();
     let writes: Vec<&Acc> = seg.iter().filter(|a| matches!(a, Acc::W(..))).collect();
     let n = op.node();
@@ -2306,10 +2690,155 @@ pub fn c03_oracles(g: &Graph, im: &mut Impl, op: &Op, ans: &Ans, log_before: usi
             }
             None
         }
+        // ── converter write: pValue receives FormulaTo(FROM = written value), converted to the target's
+        //    kind: integer target <- integer conversion, float target <- float, boolean target <- "non-zero",
+        //    enumeration target <- entry with that integer value ──
+        (Op::IntSet(..) | Op::FloatSet(..), Kind::Converter { pvalue, .. }) if *ans == Ans::Unit => {
+            if let Some(e) = pre.conv_to {
+                if faithful_store(g, *pvalue, 4) {
+                    let (want, got): (Ans, Ans) = if g.is_int(*pvalue) {
+                        (Ans::Int(readback_int(g, *pvalue, e.as_int)?), im.probe(&Op::IntValue(*pvalue)))
+                    } else if g.is_float(*pvalue) {
+                        (Ans::Float(e.as_float), im.probe(&Op::FloatValue(*pvalue)))
+                    } else if g.is_bool(*pvalue) {
+                        (Ans::Bool(e.non_zero), im.probe(&Op::BoolValue(*pvalue)))
+                    } else if g.is_enum(*pvalue) {
+                        (Ans::Int(e.as_int), im.probe(&Op::EnumCurrentValue(*pvalue)))
+                    } else {
+                        return None;
+                    };
+                    rep.count(&format!("oracle:converter-write->{}", g.kind(*pvalue).map_or("?", |k| k.tag())));
+                    if want.show() != got.show() {
+                        return Some((
+                            "converter-write".into(),
+                            format!("FormulaTo evaluates to {e:?}; the pValue target N{pvalue} must then hold {}, it holds {}", want.show(), got.show()),
+                        ));
+                    }
+                }
+            }
+            None
+        }
+        // ── pMin / pMax / pInc: the limit is the current value of the referenced node ──
+        (Op::IntMin(_) | Op::IntMax(_) | Op::IntInc(_), Kind::Integer { min, max, inc, .. }) if matches!(ans, Ans::Int(_)) => {
+            let src: Option<usize> = match op {
+                Op::IntMin(_) => if let Some(Son::Node(p)) = min { Some(*p) } else { None },
+                Op::IntMax(_) => if let Some(Son::Node(p)) = max { Some(*p) } else { None },
+                _ => if let Some(Ion::Node(p)) = inc { Some(*p) } else { None },
+            };
+            if let (Some(p), Ans::Int(v)) = (src, ans) {
+                if let Some(e) = im.probe_num_as_int(g, p) {
+                    rep.count("oracle:pmin-pmax-pinc");
+                    if e != *v {
+                        return Some(("limits".into(), format!("`{}` = {v} but the referenced node N{p} reads {e}", op.line())));
+                    }
+                }
+            }
+            None
+        }
+        (Op::FloatMin(_) | Op::FloatMax(_) | Op::FloatInc(_), Kind::Float { min, max, inc, .. }) if matches!(ans, Ans::Float(_)) => {
+            let src: Option<usize> = match op {
+                Op::FloatMin(_) => if let Some(Son::Node(p)) = min { Some(*p) } else { None },
+                Op::FloatMax(_) => if let Some(Son::Node(p)) = max { Some(*p) } else { None },
+                _ => if let Some(IonF::Node(p)) = inc { Some(*p) } else { None },
+            };
+            if let (Some(p), Ans::Float(v)) = (src, ans) {
+                if let Some(e) = im.probe_num_as_float(g, p) {
+                    rep.count("oracle:pmin-pmax-pinc-float");
+                    if e.to_bits() != v.to_bits() {
+                        return Some(("limits".into(), format!("`{}` = {v:?} but the referenced node N{p} reads {e:?}", op.line())));
+                    }
+                }
+            }
+            None
+        }
+        // ── Float pIndex write: the value goes to the selected branch (and nowhere else) ──
+        (Op::FloatSet(_, v), Kind::Float { vk: VK::PIndex { sel, entries, dflt }, .. }) => {
+            if ans.is_ok() {
+                if let (true, Ans::Int(i)) = (g.is_int(*sel), im.probe(&Op::IntValue(*sel))) {
+                    if Some(i) == pre.sel_value {
+                        match Access::select(entries, dflt, i) {
+                            Son::Slot(_) => {
+                                rep.count("oracle:pindex-write-float");
+                                let back = im.probe(&Op::FloatValue(n));
+                                if back.show() != Ans::Float(*v).show() {
+                                    return Some(("pindex".into(), format!("wrote {v:?} through the selected slot (selector {i}) but read back {}", back.show())));
+                                }
+                                if !writes.is_empty() {
+                                    return Some(("pindex".into(), "write to a value-store branch touched the device".into()));
+                                }
+                            }
+                            Son::Node(p) if faithful_store(g, *p, 4) && !matches!(g.kind(*p), Some(Kind::Boolean { .. } | Kind::Enumeration { .. })) => {
+                                rep.count("oracle:pindex-write-float");
+                                let (want, got) = if g.is_int(*p) { (Ans::Int(readback_int(g, *p, *v as i64)?), im.probe(&Op::IntValue(*p))) } else { (Ans::Float(*v), im.probe(&Op::FloatValue(*p))) };
+                                if want.show() != got.show() {
+                                    return Some(("pindex".into(), format!("selector = {i}: wrote {v:?}, the selected branch N{p} must hold {}, it holds {}", want.show(), got.show())));
+                                }
+                            }
+                            _ => {}
+                        }
+                    }
+                }
+            }
+            None
+        }
+        // ── typed register access: the bytes of the value are exactly the register's length at the
+        //    address given by the sum rule ──
+        (Op::IntValue(_) | Op::FloatValue(_) | Op::StrValue(_), Kind::IntReg { .. } | Kind::MaskedIntReg { .. } | Kind::FloatReg { .. } | Kind::StringReg { .. }) if ans.is_ok() => {
+            if let Some((Some(a), Some(l))) = pre.reg {
+                if l < 0 {
+                    return None;
+                }
+                rep.count("oracle:typed-read-at-address");
+                let hit = seg.iter().any(|x| *x == Acc::R(a, l as usize, true));
+                if !hit {
+                    return Some(("typed-access".into(), format!("`{}` must read [{a}, +{l}); device saw {:?}", op.line(), seg)));
+                }
+                let bytes: Option<&[u8]> = usize::try_from(a).ok().and_then(|a| im.dev.mem.get(a..a + l as usize));
+                let want: Option<Ans> = match (k, bytes) {
+                    (Kind::IntReg { signed, be, .. }, Some(b)) => decode_int(b, *be, *signed).map(Ans::Int),
+                    (Kind::FloatReg { be, .. }, Some(b)) if b.len() == 8 => {
+                        let mut x = [0u8; 8];
+                        x.copy_from_slice(b);
+                        Some(Ans::Float(if *be { f64::from_be_bytes(x) } else { f64::from_le_bytes(x) }))
+                    }
+                    _ => None,
+                };
+                if let Some(w) = want {
+                    // (a 4-byte float is widened by the codec, C01; checked for 8-byte registers only)
+                    if w.show() != ans.show() {
+                        return Some(("typed-access".into(), format!("`{}` = {} but the bytes at [{a}, +{l}) decode to {}", op.line(), ans.show(), w.show())));
+                    }
+                }
+            }
+            None
+        }
+        (Op::IntSet(..) | Op::FloatSet(..) | Op::StrSet(..), Kind::IntReg { .. } | Kind::MaskedIntReg { .. } | Kind::FloatReg { .. } | Kind::StringReg { .. }) if *ans == Ans::Unit => {
+            if let Some((Some(a), Some(l))) = pre.reg {
+                if l < 0 {
+                    return None;
+                }
+                rep.count("oracle:typed-write-at-address");
+                let w: Vec<(i64, &Vec<u8>, bool)> = writes.iter().map(|x| if let Acc::W(a, d, ok) = x { (*a, d, *ok) } else { unreachable!() }).collect();
+                if w.len() != 1 || w[0].0 != a || w[0].1.len() != l as usize || !w[0].2 {
+                    return Some(("typed-access".into(), format!("`{}` must be exactly one device write of {l} bytes at {a}; device saw {:?}", op.line(), writes)));
+                }
+                let want: Option<Vec<u8>> = match (op, k) {
+                    (Op::IntSet(_, v), Kind::IntReg { be, .. }) => encode_int(*v, l as usize, *be),
+                    (Op::FloatSet(_, v), Kind::FloatReg { be, .. }) if l == 8 => Some(if *be { v.to_be_bytes().to_vec() } else { v.to_le_bytes().to_vec() }),
+                    _ => None,
+                };
+                if let Some(want) = want {
+                    if &want != w[0].1 {
+                        return Some(("typed-access".into(), format!("`{}` wrote {} at {a}, the encoding of the value is {}", op.line(), hex(w[0].1), hex(&want))));
+                    }
+                }
+            }
+            None
+        }
         // ── swiss knives and converters (read): the formula sees variables, then constants, then
         //    expressions, later bindings shadowing earlier ones; a converter read binds TO first ──
         (Op::IntValue(_) | Op::FloatValue(_), Kind::SwissKnife { fm, formula, int, .. }) if matches!(ans, Ans::Int(_) | Ans::Float(_)) => {
-            if let Some(env) = oracle_formula_env(g, im, fm, *int, None) {
+            if let Some(env) = oracle_formula_env(g, im, fm, *int, None, None) {
                 if let Some(e) = oracle_formula_eval(formula, &env, *int) {
                     rep.count("oracle:swissknife-read");
                     if e.show() != ans.show() {
@@ -2320,7 +2849,7 @@ pub fn c03_oracles(g: &Graph, im: &mut Impl, op: &Op, ans: &Ans, log_before: usi
             None
         }
         (Op::IntValue(_) | Op::FloatValue(_), Kind::Converter { fm, from, pvalue, int, .. }) if matches!(ans, Ans::Int(_) | Ans::Float(_)) => {
-            if let Some(env) = oracle_formula_env(g, im, fm, *int, Some(("TO", *pvalue))) {
+            if let Some(env) = oracle_formula_env(g, im, fm, *int, Some(("TO", *pvalue)), None) {
                 if let Some(e) = oracle_formula_eval(from, &env, *int) {
                     rep.count("oracle:converter-read");
                     if e.show() != ans.show() {
@@ -2560,49 +3089,19 @@ pub fn c03_oracles(g: &Graph, im: &mut Impl, op: &Op, ans: &Ans, log_before: usi
         // ── address = Σ address elements; length from Length / pLength ──
         (Op::RegAddress(_), _) | (Op::RegLength(_), _) | (Op::RegRead(..), _) if k.reg().is_some() => {
             let r = k.reg().unwrap();
-            let mut sum: i128 = 0;
-            let mut known = true;
-            let mut wrapped = false;
-            let mut acc: i64 = 0;
-            for a in &r.addrs {
-                let v: Option<i128> = match a {
-                    AddrKind::Addr(Ion::Imm(i)) => Some(*i as i128),
-                    AddrKind::Addr(Ion::Node(p)) => im.probe_num_as_int(g, *p).map(|x| x as i128),
-                    AddrKind::Isk(s) => im.probe_num_as_int(g, *s).map(|x| x as i128),
-                    AddrKind::PIndex { sel, offset } => {
-                        let b = im.probe_num_as_int(g, *sel).map(|x| x as i128);
-                        let o = match offset {
-                            None => Some(1i128),
-                            Some(Ion::Imm(i)) => Some(*i as i128),
-                            Some(Ion::Node(p)) => im.probe_num_as_int(g, *p).map(|x| x as i128),
-                        };
-                        match (b, o) {
-                            (Some(b), Some(o)) => {
-                                let p = b * o;
-                                if p > i64::MAX as i128 || p < i64::MIN as i128 {
-                                    wrapped = true;
-                                }
-                                Some(p)
-                            }
-                            _ => None,
-                        }
-                    }
-                };
-                match v {
-                    Some(v) => {
-                        sum += v;
-                        match acc.checked_add(v as i64) {
-                            Some(x) => acc = x,
-                            None => wrapped = true,
-                        }
-                    }
-                    None => known = false,
-                }
+            let oa = oracle_address(g, im, r);
+            let len = oracle_length(g, im, r);
+            let known = !oa.unknown;
+            let wrapped = known && oa.addr.is_none();
+            let sum = oa.addr.unwrap_or(0) as i128;
+            if matches!(op, Op::RegAddress(_)) && oa.has_default_offset && known {
+                // the doubt about the default pIndex offset: on how many evaluations do the readings differ?
+                rep.count(match (oa.addr, oa.addr_other_default) {
+                    (Some(a), Some(b)) if a == b => "pindex-default-offset: x1 and xLength agree (index 0 or Length 1)",
+                    (Some(_), Some(_)) => "pindex-default-offset: x1 and xLength DIFFER (the code uses x1)",
+                    _ => "pindex-default-offset: overflow under one reading",
+                });
             }
-            let len: Option<i64> = match &r.length {
-                Ion::Imm(i) => Some(*i),
-                Ion::Node(p) => im.probe_num_as_int(g, *p),
-            };
             match (op, ans) {
                 (Op::RegAddress(_), Ans::Int(a)) if known && !wrapped => {
                     rep.count("oracle:address");
@@ -2639,16 +3138,39 @@ pub struct PreState {
     pub sel_value: Option<i64>,
     /// command value as it was before `execute`
     pub cmd_value: Option<i64>,
+    /// converter write: FormulaTo evaluated in the environment FROM < variables < constants <
+    /// expressions built from the values the variables had BEFORE the write
+    pub conv_to: Option<EvalOut>,
+    /// typed register access: (address by the sum rule, length) before the call
+    pub reg: Option<(Option<i64>, Option<i64>)>,
 }
 
 pub fn pre_state(g: &Graph, im: &mut Impl, op: &Op) -> PreState {
     let mut p = PreState::default();
-    if let (Op::IntSet(n, _), Some(Kind::Integer { vk: VK::PIndex { sel, .. }, .. })) = (op, g.kind(op.node())) {
-        let _ = n;
+    if let (Op::IntSet(..), Some(Kind::Integer { vk: VK::PIndex { sel, .. }, .. })) | (Op::FloatSet(..), Some(Kind::Float { vk: VK::PIndex { sel, .. }, .. })) = (op, g.kind(op.node())) {
         if g.is_int(*sel) {
             if let Ans::Int(i) = im.probe(&Op::IntValue(*sel)) {
                 p.sel_value = Some(i);
             }
+        }
+    }
+    if let Some(Kind::Converter { fm, to, int, .. }) = g.kind(op.node()) {
+        use cameleon_genapi::formula::Expr;
+        let from: Option<Expr> = match (op, *int) {
+            (Op::IntSet(_, v), true) => Some(Expr::from(*v)),
+            (Op::FloatSet(_, v), false) => Some(Expr::from(*v)),
+            _ => None,
+        };
+        if let Some(from) = from {
+            if let Some(env) = oracle_formula_env(g, im, fm, *int, None, Some(("FROM", from))) {
+                p.conv_to = oracle_formula_eval_raw(to, &env);
+            }
+        }
+    }
+    if matches!(op, Op::IntValue(_) | Op::IntSet(..) | Op::FloatValue(_) | Op::FloatSet(..) | Op::StrValue(_) | Op::StrSet(..)) {
+        if let Some(k @ (Kind::IntReg { .. } | Kind::MaskedIntReg { .. } | Kind::FloatReg { .. } | Kind::StringReg { .. })) = g.kind(op.node()) {
+            let r = k.reg().unwrap();
+            p.reg = Some((oracle_address(g, im, r).addr, oracle_length(g, im, r)));
         }
     }
     if let (Op::CmdExecute(_), Some(Kind::Command { cmd, .. })) = (op, g.kind(op.node())) {
@@ -2753,9 +3275,23 @@ fn case_rng(seed: u64, case: u64) -> Rng {
 
 /// run one generated case; returns false if the case could not be built
 pub fn run_case(mode: &Mode, rep: &mut Report, seed: u64, case: u64, max_ops: u64, verbose: bool) -> bool {
+    let (g, ops) = gen_case(mode, seed, case, max_ops);
+    let replay = json!({"seed": seed, "case": case, "max_ops": max_ops, "property": mode.property});
+    run_explicit(mode, rep, g, ops, replay, format!("@{seed}:{case}:{max_ops}"), case, verbose)
+}
+
+/// the graph and the (random part of the) operation list of generated case `case`
+pub fn gen_case(mode: &Mode, seed: u64, case: u64, max_ops: u64) -> (Graph, Vec<Op>) {
     let mut rng = case_rng(seed, case);
     let g = gen_graph(&mut rng, &mode.cfg);
     let n_ops = 1 + rng.below(max_ops);
+    let ops: Vec<Op> = (0..n_ops).map(|_| gen_op(&mut rng, &g, &mode.cfg)).collect();
+    (g, ops)
+}
+
+/// run one case given explicitly: `gen_ops` followed by the read sweep of every node
+#[allow(clippy::too_many_arguments)]
+pub fn run_explicit(mode: &Mode, rep: &mut Report, g: Graph, gen_ops: Vec<Op>, replay: Value, case_tag: String, case: u64, verbose: bool) -> bool {
     let mut im = match Impl::build(&g) {
         Ok(i) => i,
         Err(e) => {
@@ -2767,7 +3303,6 @@ pub fn run_case(mode: &Mode, rep: &mut Report, seed: u64, case: u64, max_ops: u6
             return false;
         }
     };
-    let replay = json!({"seed": seed, "case": case, "max_ops": max_ops, "property": mode.property});
     if verbose {
         eprintln!("{}", g.xml());
     }
@@ -2778,10 +3313,31 @@ pub fn run_case(mode: &Mode, rep: &mut Report, seed: u64, case: u64, max_ops: u6
     let mut lines: Vec<(String, String)> = vec![(nan_line.clone(), "ok".to_string())];
     lines.extend(g.protocol("").into_iter().map(|l| (l.trim_start().to_string(), "ok".to_string())));
     let mut log_hash = FNV_INIT;
+    let mut log_count: usize = 0;
     for k in &g.nodes {
         rep.count(&format!("node:{}", k.tag()));
     }
     rep.count(&format!("graph:nodes={}", g.nodes.len().min(20)));
+    for k in &g.nodes {
+        let b = k.base();
+        for c in [b.imp, b.avail, b.locked].into_iter().flatten() {
+            rep.count(&format!("ctl-kind:{}", g.kind(c).map_or("missing", |k| if matches!(k, Kind::Converter { int: true, .. }) { "IntConverter" } else { k.tag() })));
+        }
+        if let Kind::Converter { fm, .. } | Kind::SwissKnife { fm, .. } = k {
+            // several `.Enum.<entry>` variables on ONE enumeration with different entries
+            let mut seen: Vec<(usize, &str)> = vec![];
+            for (n, v) in &fm.vars {
+                if let Some(pos) = n.find(".Enum.") {
+                    let e = &n[pos + 6..];
+                    if seen.iter().any(|(w, f)| w == v && *f != e) {
+                        rep.count("shape:formula-several-.Enum-entries-of-one-enumeration");
+                        break;
+                    }
+                    seen.push((*v, e));
+                }
+            }
+        }
+    }
     // shapes the audit asked to see in the evidence: dynamic pLength, formula environments with
     // duplicate / shadowing names, variable accessors
     for k in &g.nodes {
@@ -2816,6 +3372,9 @@ pub fn run_case(mode: &Mode, rep: &mut Report, seed: u64, case: u64, max_ops: u6
         if (1..fm.exprs.len()).any(|i| fm.exprs[..i].iter().any(|(e, _)| *e == fm.exprs[i].0)) {
             rep.count("shape:formula-duplicate-expression-name");
         }
+        if fm.exprs.iter().any(|(n, body)| body.split(|c: char| !(c.is_alphanumeric() || c == '.' || c == '_')).any(|tok| tok == n)) {
+            rep.count("shape:formula-expression-mentions-its-own-name");
+        }
         for (n, _) in &fm.vars {
             if let Some(pos) = n.find('.') {
                 let acc = &n[pos + 1..];
@@ -2835,39 +3394,40 @@ pub fn run_case(mode: &Mode, rep: &mut Report, seed: u64, case: u64, max_ops: u6
     let mut nontrivial = false;
     let mut dead = false;
     let mut ops: Vec<Op> = vec![];
-    let mut i = 0;
-    let mut sweeping = false;
-    let sw = sweep(&g);
-    loop {
-        let op = if !sweeping {
-            if i < n_ops {
-                i += 1;
-                gen_op(&mut rng, &g, &mode.cfg)
-            } else {
-                sweeping = true;
-                i = 0;
-                continue;
-            }
-        } else if (i as usize) < sw.len() {
-            i += 1;
-            sw[i as usize - 1].clone()
-        } else {
-            break;
+    let all_ops: Vec<Op> = gen_ops.iter().cloned().chain(sweep(&g)).collect();
+    for op in all_ops {
+        let is_access = matches!(op, Op::IsReadable(_) | Op::IsWritable(_) | Op::IsImplemented(_) | Op::IsAvailable(_) | Op::IsLocked(_));
+        let is_rw_query = matches!(op, Op::IsReadable(_) | Op::IsWritable(_));
+        let harness_bug = |rep: &mut Report, what: &str, loc: &str| {
+            // a panic in harness-side code: reported distinctly, never as a verdict on the implementation
+            rep.count(&format!("HARNESS-BUG:{what}-panicked@{loc}"));
+            eprintln!("HARNESS BUG: {what} panicked at {loc} (case {case_tag}, op `{}`)", op.line());
         };
-        let pre = pre_state(&g, &mut im, &op);
-        let spec_before = if mode.spec {
-            match op {
-                Op::IsReadable(n) => Some(acc.acc(&mut im, n, false, FUEL + 1)),
-                Op::IsWritable(n) => Some(acc.acc(&mut im, n, true, FUEL + 1)),
+        // everything evaluated on the pre-state (needs the values of referenced nodes before the call)
+        let before = guarded(|| {
+            let pre = pre_state(&g, &mut im, &op);
+            let spec_before = match op {
+                Op::IsReadable(n) if mode.spec => Some(acc.acc(&mut im, n, false, FUEL + 1)),
+                Op::IsWritable(n) if mode.spec => Some(acc.acc(&mut im, n, true, FUEL + 1)),
                 _ => None,
+            };
+            (pre, spec_before)
+        });
+        let (pre, spec_before) = match before {
+            Ok(x) => x,
+            Err(loc) => {
+                harness_bug(rep, "pre-state evaluation", &loc);
+                (PreState::default(), None)
             }
-        } else {
-            None
         };
         let log_before = im.dev.log.len();
         let ans = im.apply(&op);
-        log_hash = log_digest_from(log_hash, &im.dev.log[log_before..]);
-        let pin = format!(" L{}:{:08x} M{:08x}", im.dev.log.len(), log_hash & 0xffff_ffff, fnv_bytes(FNV_INIT, &im.dev.mem) & 0xffff_ffff);
+        // what of the access log is compared: writes in order; reads as a sorted multiset, and not at
+        // all for a failing call or an access query (see `canon_accesses`)
+        let seg = canon_accesses(ans.is_ok() && !is_access, &im.dev.log[log_before..]);
+        log_hash = log_digest_from(log_hash, &seg);
+        log_count += seg.len();
+        let pin = format!(" L{}:{:08x} M{:08x}", log_count, log_hash & 0xffff_ffff, fnv_bytes(FNV_INIT, &im.dev.mem) & 0xffff_ffff);
         let tag = g.nodes[op.node()].tag();
         let opname = op.line().split(' ').next().unwrap().to_string();
         rep.count(&format!("op:{opname}"));
@@ -2875,17 +3435,37 @@ pub fn run_case(mode: &Mode, rep: &mut Report, seed: u64, case: u64, max_ops: u6
         if ans.is_ok() && !matches!(op, Op::IsImplemented(_)) {
             nontrivial = true;
         }
-        let mut shown = ans.show();
+        // non-triviality per CALL: does the node's kind offer the interface the call belongs to at all?
+        // (a call on a kind without that interface answers InvalidNode by construction)
+        let offered = g.kind(op.node()).map_or(false, |k| op.offered_by(k));
+        rep.count(if !offered {
+            "call:vacuous (kind does not offer the interface)"
+        } else if ans.is_ok() {
+            "call:offered, answers"
+        } else if ans == Ans::Panic {
+            "call:offered, panics"
+        } else {
+            "call:offered, error"
+        });
         if matches!(ans, Ans::Err("NotAnEntry")) {
             // not callable through the public API: nothing to compare
             continue;
         }
+        // access queries are compared as granted / not granted (`no` = false, an error or a panic): which
+        // of them a refusal is depends on the order of the conjuncts, which C18 does not fix (a panic needs
+        // a malformed description or a formula overflow, both outside C18; it does not end the case); controller
+        // readings of enumeration entries: the error variant is not compared.  The variant is judged
+        // below against the expected classes.
+        let mut shown = match (&op, &ans) {
+            (Op::IsReadable(_) | Op::IsWritable(_), Ans::Bool(false) | Ans::Err(_) | Ans::Panic) => "no".to_string(),
+            (_, Ans::Err(_)) if is_access => "err *".to_string(),
+            _ => ans.show(),
+        };
         // cached twin: access queries must answer the same with DefaultCacheStore
         if let Some(c) = imc.as_mut() {
             let ans_c = c.apply(&op);
-            let is_access = matches!(op, Op::IsReadable(_) | Op::IsWritable(_) | Op::IsImplemented(_) | Op::IsAvailable(_) | Op::IsLocked(_));
             if is_access {
-                rep.count("cache-twin:access-compared");
+                rep.count(if offered { "cache-twin:access-compared" } else { "cache-twin:access-compared (vacuous: kind has no such query)" });
                 if ans_c != ans {
                     rep.violation(
                         json!({"oracle": "cache-access", "kind": tag, "after_other_divergence": twin_diverged}),
@@ -2900,65 +3480,98 @@ pub fn run_case(mode: &Mode, rep: &mut Report, seed: u64, case: u64, max_ops: u6
                 twin_diverged = true;
             }
         }
-        // distribution of access answers: kind x restriction x answer
-        let offers_access_query = g.kind(op.node()).map_or(false, |k| {
-            k.is_int() || k.is_float() || k.is_str() || k.is_bool() || k.is_enum() || (matches!(op, Op::IsWritable(_)) && matches!(k, Kind::Command { .. }))
-        });
-        if matches!(op, Op::IsReadable(_) | Op::IsWritable(_)) && !offers_access_query {
-            rep.count(&format!("acc|{tag}|{}|n/a (kind has no such query)", if matches!(op, Op::IsReadable(_)) { "rd" } else { "wr" }));
-        }
-        if matches!(op, Op::IsReadable(_) | Op::IsWritable(_)) && offers_access_query {
-            let q = if matches!(op, Op::IsReadable(_)) { "rd" } else { "wr" };
-            let a = match &ans {
-                Ans::Bool(true) => "T".to_string(),
-                Ans::Bool(false) => "F".to_string(),
-                Ans::Err(e) => format!("Err-{e}"),
-                _ => "other".to_string(),
-            };
-            rep.count(&format!("acc|{tag}|{q}|{a}"));
-            if let Some(k) = g.kind(op.node()) {
-                let b = k.base();
-                let t = |c: Option<usize>, im: &mut Impl| match c {
-                    None => "-",
-                    Some(c) => match acc.ctl(im, c) {
-                        Some(true) => "T",
-                        Some(false) => "F",
-                        None => "E",
-                    },
-                };
-                let (i, av, l) = (t(b.imp, &mut im), t(b.avail, &mut im), t(b.locked, &mut im));
-                let am = k.reg().map_or("n/a", |r| r.am.map_or("-", |m| m.s()));
-                rep.count(&format!("restr|iam={}|am={am}|imp={i}|avail={av}|lock={l}|{q}|{}", b.iam.map_or("-", |m| m.s()), &a[..1]));
-            }
-            if let Ans::Err(e) = &ans {
-                rep.count(&format!("access-error:{q}:{e}"));
-                if mode.spec && !acc.trouble(&mut im, op.node(), FUEL + 1) {
-                    rep.violation(
-                        json!({"oracle": "access-error-unexplained", "kind": tag, "error": e}),
-                        &format!("`{}` on {tag} failed with {e} although every controlling node, selector, value source and formula variable it may consult has a value and the right kind", op.line()),
-                        replay.clone(),
-                    );
-                }
-            }
-        }
         if let Some(s) = spec_before {
             shown.push_str(&format!(" spec={s}"));
-            rep.count(&format!("access:{}:{}", if matches!(op, Op::IsReadable(_)) { "readable" } else { "writable" }, s));
-            if let Ans::Bool(b) = ans {
-                if b != s {
-                    let what = format!(
-                        "{} of {tag} node N{} answered {b}, the access predicate evaluated on the graph says {s}",
-                        if matches!(op, Op::IsReadable(_)) { "is_readable" } else { "is_writable" },
-                        op.node()
-                    );
-                    rep.violation(json!({"oracle": if matches!(op, Op::IsReadable(_)) { "readable" } else { "writable" }, "kind": tag, "answer": b}), &what, replay.clone());
+        }
+        // ── oracles and distribution (harness-side code: guarded) ──
+        let judged = guarded(|| {
+            // distribution of access answers: kind x restriction x answer
+            if is_rw_query && !offered {
+                rep.count(&format!("acc|{tag}|{}|n/a (kind has no such query)", if matches!(op, Op::IsReadable(_)) { "rd" } else { "wr" }));
+            }
+            if is_rw_query && offered {
+                let q = if matches!(op, Op::IsReadable(_)) { "rd" } else { "wr" };
+                let a = match &ans {
+                    Ans::Bool(true) => "T".to_string(),
+                    Ans::Bool(false) => "F".to_string(),
+                    Ans::Err(e) => format!("Err-{e}"),
+                    Ans::Panic => "Panic".to_string(),
+                    _ => "other".to_string(),
+                };
+                rep.count(&format!("acc|{tag}|{q}|{a}"));
+                if let Some(k) = g.kind(op.node()) {
+                    let b = k.base();
+                    let t = |c: Option<usize>, im: &mut Impl| match c {
+                        None => "-",
+                        Some(c) => match acc.ctl(im, c) {
+                            Some(true) => "T",
+                            Some(false) => "F",
+                            None => "E",
+                        },
+                    };
+                    let (i, av, l) = (t(b.imp, &mut im), t(b.avail, &mut im), t(b.locked, &mut im));
+                    let am = k.reg().map_or("n/a", |r| r.am.map_or("-", |m| m.s()));
+                    rep.count(&format!("restr|iam={}|am={am}|imp={i}|avail={av}|lock={l}|{q}|{}", b.iam.map_or("-", |m| m.s()), &a[..1]));
+                    for (role, c) in [("pIsImplemented", b.imp), ("pIsAvailable", b.avail), ("pIsLocked", b.locked)] {
+                        if let Some(c) = c {
+                            rep.count(&format!("ctl-kind-queried:{role}:{}", g.kind(c).map_or("missing", |k| k.tag())));
+                        }
+                    }
                 }
             }
-        }
-        if !mode.spec || true {
+            // error / panic answers of access queries: is there a cause in the description?
+            if is_access && offered {
+                let q = opname.as_str();
+                let got: Option<&'static str> = match &ans {
+                    Ans::Err(e) => Some(e),
+                    Ans::Panic => Some("panic"),
+                    _ => None,
+                };
+                if let Some(e) = got {
+                    rep.count(&format!("{}:{q}:{e}", if e == "panic" { "access-panic" } else { "access-error" }));
+                    // (an access query changes neither value store nor device image, so the classes can
+                    // be computed after the call)
+                    let mut classes = std::collections::BTreeSet::new();
+                    acc.error_classes(&mut im, op.node(), FUEL + 1, &mut classes);
+                    if !classes.contains(e) && !classes.contains("*") {
+                        rep.violation(
+                            json!({"oracle": if e == "panic" { "access-panic-unexplained" } else { "access-error-unexplained" }, "kind": tag, "error": e}),
+                            &format!(
+                                "`{}` on {tag} answered {e}; the classes with which a controlling node, selector, value source / target or formula variable it may consult fails are {:?}",
+                                op.line(),
+                                classes
+                            ),
+                            replay.clone(),
+                        );
+                    }
+                    if spec_before == Some(true) {
+                        rep.violation(
+                            json!({"oracle": "access-error-although-accessible", "kind": tag, "error": e}),
+                            &format!("`{}` on {tag} answered {e} although the access predicate holds (every restriction it depends on has a value and permits the access)", op.line()),
+                            replay.clone(),
+                        );
+                    }
+                }
+            }
+            if let Some(s) = spec_before {
+                rep.count(&format!("access:{}:{}", if matches!(op, Op::IsReadable(_)) { "readable" } else { "writable" }, s));
+                if let Ans::Bool(b) = ans {
+                    if b != s {
+                        let what = format!(
+                            "{} of {tag} node N{} answered {b}, the access predicate evaluated on the graph says {s}",
+                            if matches!(op, Op::IsReadable(_)) { "is_readable" } else { "is_writable" },
+                            op.node()
+                        );
+                        rep.violation(json!({"oracle": if matches!(op, Op::IsReadable(_)) { "readable" } else { "writable" }, "kind": tag, "answer": b}), &what, replay.clone());
+                    }
+                }
+            }
             if let Some((o, what)) = c03_oracles(&g, &mut im, &op, &ans, log_before, &pre, rep) {
                 rep.violation(json!({"oracle": o, "kind": tag}), &format!("{what} (op `{}` on {tag})", op.line()), replay.clone());
             }
+        });
+        if let Err(loc) = judged {
+            harness_bug(rep, "oracle", &loc);
         }
         canon.push_str(&op.line());
         canon.push(';');
@@ -2966,13 +3579,13 @@ pub fn run_case(mode: &Mode, rep: &mut Report, seed: u64, case: u64, max_ops: u6
         shown.push_str(&pin);
         lines.push((format!("op {}", op.line()), shown));
         ops.push(op);
-        if ans == Ans::Panic {
+        if ans == Ans::Panic && !is_rw_query {
             dead = true;
             break;
         }
     }
     let _ = dead;
-    lines.push(("end".into(), format!("mem={} log={}:{:016x}", hex(&im.dev.mem), im.dev.log.len(), log_digest(&im.dev.log))));
+    lines.push(("end".into(), format!("mem={} log={}:{:016x}", hex(&im.dev.mem), log_count, log_hash)));
     let key = format!("{}|{}", g.protocol("").join("|"), canon);
     rep.case(&key, nontrivial);
     if case % 97 == 0 {
@@ -2986,21 +3599,45 @@ pub fn run_case(mode: &Mode, rep: &mut Report, seed: u64, case: u64, max_ops: u6
     // every request of the case carries `@seed:case:max_ops` (ignored by the driver), so that a
     // model / implementation disagreement names the case to replay:
     //   c03|c18 --replay <file with {"replay": {"property", "seed", "case", "max_ops"}}> --verbose
-    let tag = format!("@{seed}:{case}:{max_ops}");
     for (q, a) in lines {
-        rep.expect(format!("{tag} {q}"), a);
+        rep.expect(format!("{case_tag} {q}"), a);
     }
     true
 }
 
 pub fn run(mode: Mode) {
+    install_panic_hook();
     let args = parse_args();
     let mut rep = Report::new(
         mode.property,
         "random acyclic node graphs (all stored kinds, <= 12 nodes + enum entries, all ValueKind shapes, selector-indexed addresses, embedded IntSwissKnife, access restrictions and controllers, ~2.5% ill-typed / dangling references) x random device images x operation sequences over all interface calls followed by a read sweep of every node; a case is non-trivial when at least one call succeeds; distinct by (graph, device image, operation sequence)",
     );
+    // `--export seed:case:max_ops [note]`: print the case as a self-contained corpus entry
+    let argv: Vec<String> = std::env::args().collect();
+    if let Some(i) = argv.iter().position(|a| a == "--export") {
+        let parts: Vec<u64> = argv.get(i + 1).map_or(vec![], |s| s.split(':').filter_map(|x| x.parse().ok()).collect());
+        if parts.len() != 3 {
+            eprintln!("usage: --export seed:case:max_ops [note]");
+            std::process::exit(2);
+        }
+        let (g, ops) = gen_case(&mode, parts[0], parts[1], parts[2]);
+        let origin = json!({"property": mode.property, "seed": parts[0], "case": parts[1], "max_ops": parts[2]});
+        println!("{}", serde_json::to_string_pretty(&corpus::export_case(argv.get(i + 2).map_or("", |s| s.as_str()), &origin, &g, &ops)).unwrap());
+        return;
+    }
     if let Some(path) = &args.replay {
         let v: Value = serde_json::from_str(&std::fs::read_to_string(path).unwrap()).unwrap();
+        // a violation found in an explicit corpus entry points to that file
+        let v: Value = match v["replay"]["corpus"].as_str() {
+            Some(f) => serde_json::from_str(&std::fs::read_to_string(f).unwrap()).unwrap(),
+            None => v,
+        };
+        if v.get("graph").is_some() {
+            let e = corpus::load_case(&v).unwrap_or_else(|e| panic!("corpus entry {path}: {e}"));
+            run_explicit(&mode, &mut rep, e.g, e.ops, json!({"corpus": path, "property": mode.property}), format!("@corpus:{}", std::path::Path::new(path).file_stem().map_or("?".into(), |s| s.to_string_lossy().to_string())), 0, true);
+            rep.write(&args);
+            return;
+        }
         let r = &v["replay"];
         run_case(&mode, &mut rep, r["seed"].as_u64().unwrap_or(1), r["case"].as_u64().unwrap_or(0), r["max_ops"].as_u64().unwrap_or(40), true);
         rep.write(&args);
@@ -3013,9 +3650,30 @@ pub fn run(mode: Mode) {
         for f in files {
             if let Ok(s) = std::fs::read_to_string(&f) {
                 if let Ok(v) = serde_json::from_str::<Value>(&s) {
-                    let r = &v["replay"];
-                    run_case(&mode, &mut rep, r["seed"].as_u64().unwrap_or(1), r["case"].as_u64().unwrap_or(0), r["max_ops"].as_u64().unwrap_or(40), false);
-                    rep.count("corpus");
+                    let path = f.to_string_lossy().to_string();
+                    if v.get("graph").is_some() {
+                        // explicit entry: graph + device image + operation list, independent of the generator
+                        match corpus::load_case(&v) {
+                            Ok(e) => {
+                                let stem = f.file_stem().map_or("?".into(), |s| s.to_string_lossy().to_string());
+                                run_explicit(&mode, &mut rep, e.g, e.ops, json!({"corpus": path, "property": mode.property}), format!("@corpus:{stem}"), 0, false);
+                                rep.count("corpus");
+                            }
+                            Err(e) => {
+                                // never silent: a corpus entry that no longer loads is a broken regression test
+                                rep.count("corpus:ENTRY-DOES-NOT-LOAD");
+                                rep.n_disagreements += 1;
+                                if rep.disagreements.len() < 40 {
+                                    rep.disagreements.push(json!({"request": format!("load corpus entry {path}"), "impl": e, "model": "-"}));
+                                }
+                            }
+                        }
+                    } else {
+                        // legacy pointer into the random stream (retargeted by generator edits)
+                        let r = &v["replay"];
+                        run_case(&mode, &mut rep, r["seed"].as_u64().unwrap_or(1), r["case"].as_u64().unwrap_or(0), r["max_ops"].as_u64().unwrap_or(40), false);
+                        rep.count("corpus:legacy-seed-pointer");
+                    }
                 }
             }
         }
